@@ -53,6 +53,8 @@ pub struct SpecDecoder {
     pub auto_chunk_size: bool,
     pub chunks: Vec<ChunkInfo>,
     pub consumed: usize,
+    /// parse position inside `buf` while a push is in progress (compacted at the end of push)
+    off: usize,
 }
 
 const MAXTS: u32 = 0xFF_FFFF;
@@ -76,11 +78,12 @@ impl SpecDecoder {
             auto_chunk_size: true,
             chunks: Vec::new(),
             consumed: 0,
+            off: 0,
         }
     }
 
     pub fn pending(&self) -> usize {
-        self.buf.len()
+        self.buf.len() - self.off
     }
 
     pub fn any_in_progress(&self) -> bool {
@@ -90,8 +93,8 @@ impl SpecDecoder {
     /// Canonical bytes of the decoder state (for state-graph keys).
     pub fn fingerprint(&self, out: &mut Vec<u8>) {
         out.extend_from_slice(&self.chunk_size.to_be_bytes());
-        out.extend_from_slice(&(self.buf.len() as u32).to_be_bytes());
-        out.extend_from_slice(&self.buf);
+        out.extend_from_slice(&((self.buf.len() - self.off) as u32).to_be_bytes());
+        out.extend_from_slice(&self.buf[self.off..]);
         for (k, s) in self.per.iter() {
             out.extend_from_slice(&k.to_be_bytes());
             out.push(s.have as u8);
@@ -111,25 +114,29 @@ impl SpecDecoder {
     pub fn push(&mut self, bytes: &[u8]) -> Result<Vec<Msg>, String> {
         self.buf.extend_from_slice(bytes);
         let mut out = Vec::new();
-        loop {
-            match self.try_chunk()? {
-                None => break,
-                Some(Some(m)) => out.push(m),
-                Some(None) => {}
+        let r = loop {
+            match self.try_chunk() {
+                Err(e) => break Err(e),
+                Ok(None) => break Ok(()),
+                Ok(Some(Some(m))) => out.push(m),
+                Ok(Some(None)) => {}
             }
-        }
-        Ok(out)
+        };
+        // compact once per push (not once per chunk)
+        self.buf.drain(..self.off);
+        self.off = 0;
+        r.map(|_| out)
     }
 
     /// Tries to parse one whole chunk from the buffer.  Ok(None): need more bytes.
     fn try_chunk(&mut self) -> Result<Option<Option<Msg>>, String> {
-        let b = &self.buf;
+        let b = &self.buf[self.off..];
         if b.is_empty() {
             return Ok(None);
         }
         let fmt = b[0] >> 6;
         let c = (b[0] & 63) as u32;
-        let (csid, form, mut pos) = match c {
+        let (csid, form, hdr) = match c {
             0 => {
                 if b.len() < 2 {
                     return Ok(None);
@@ -146,175 +153,209 @@ impl SpecDecoder {
         };
         // minimal encoding
         if form == 3 && csid < 320 {
-            // form 3 can express 64..65599; values below 320 should use form 2
             return Err(format!("csid {} encoded in 3-byte form (not minimal)", csid));
         }
-        let prev = self.per.get(&csid).cloned().unwrap_or_default();
-        if fmt != 0 && !prev.have {
-            return Err(format!("fmt {} chunk on csid {} with no previous chunk", fmt, csid));
-        }
-        let first = !prev.in_progress;
-        let mut s = prev.clone();
-        let mut field24 = None;
-        let mut ext_value = None;
-        let mut restated = false;
-        match fmt {
-            0 => {
-                if b.len() < pos + 11 {
-                    return Ok(None);
+        // the per-csid record without its (possibly large) partial payload
+        let mut prev = self.per.remove(&csid);
+        let had = prev.is_some();
+        let mut rec = prev.take().unwrap_or_default();
+        let mut partial = std::mem::take(&mut rec.partial);
+        let parsed = parse_after_basic(&self.buf[self.off..], fmt, csid, hdr, &rec, partial.len(), self.chunk_size);
+        match parsed {
+            Err(e) => {
+                rec.partial = partial;
+                if had {
+                    self.per.insert(csid, rec);
                 }
-                let f = be24(&b[pos..]);
-                let len = be24(&b[pos + 3..]);
-                let ty = b[pos + 6];
-                let msid = le32(&b[pos + 7..]);
-                pos += 11;
-                let ext = f == MAXTS;
-                let v = if ext {
-                    if b.len() < pos + 4 {
-                        return Ok(None);
+                Err(e)
+            }
+            Ok(None) => {
+                rec.partial = partial;
+                if had {
+                    self.per.insert(csid, rec);
+                }
+                Ok(None)
+            }
+            Ok(Some(p)) => {
+                let b = &self.buf[self.off..];
+                partial.extend_from_slice(&b[p.pos - p.n..p.pos]);
+                let mut s = p.state;
+                let completes = partial.len() == s.len as usize;
+                self.chunks.push(ChunkInfo {
+                    start: self.consumed,
+                    header_len: p.pos - p.n,
+                    fmt,
+                    csid,
+                    csid_form: form,
+                    first: p.first,
+                    ext_present: p.ext_value.is_some(),
+                    field24: p.field24,
+                    ext_value: p.ext_value,
+                    payload_len: p.n,
+                    chunk_size_in_force: self.chunk_size,
+                    restated_fmt0_continuation: p.restated,
+                    completes,
+                });
+                let mut result = None;
+                let mut err = None;
+                if completes {
+                    s.in_progress = false;
+                    let m = Msg { type_id: s.type_id, msid: s.msid, ts: s.ts, payload: partial };
+                    if self.auto_chunk_size && m.type_id == 1 {
+                        if m.payload.len() < 4 {
+                            err = Some("Set Chunk Size message shorter than 4 bytes".to_string());
+                        } else {
+                            let v = be32(&m.payload);
+                            if v == 0 || v > 0x7FFF_FFFF {
+                                err = Some(format!("Set Chunk Size announces illegal size {:#x}", v));
+                            } else {
+                                self.chunk_size = v;
+                            }
+                        }
                     }
-                    let x = be32(&b[pos..]);
-                    pos += 4;
-                    ext_value = Some(x);
-                    if x < MAXTS {
-                        return Err(format!("extended timestamp {:#x} below 0xFFFFFF on fmt 0", x));
-                    }
-                    x
+                    result = Some(m);
                 } else {
-                    f
-                };
-                field24 = Some(f);
-                if first {
-                    s.ts = v;
-                    s.delta = v;
-                    s.len = len;
-                    s.type_id = ty;
-                    s.msid = msid;
-                    s.ext = ext;
-                    s.have = true;
-                } else {
-                    // a fmt-0 header on a continuation chunk: tolerated only if it restates the message
-                    if len != s.len || ty != s.type_id || msid != s.msid || v != s.ts {
-                        return Err(format!(
-                            "fmt 0 header on continuation chunk of csid {} changes message fields", csid
-                        ));
-                    }
-                    s.ext = ext;
-                    s.delta = v;
-                    restated = true;
+                    s.in_progress = true;
+                    s.partial = partial;
+                }
+                self.per.insert(csid, s);
+                self.off += p.pos;
+                self.consumed += p.pos;
+                match err {
+                    Some(e) => Err(e),
+                    None => Ok(Some(result)),
                 }
             }
-            1 | 2 => {
-                let need = if fmt == 1 { 7 } else { 3 };
-                if b.len() < pos + need {
+        }
+    }
+}
+
+struct Parsed {
+    state: CsState,
+    pos: usize,
+    n: usize,
+    first: bool,
+    field24: Option<u32>,
+    ext_value: Option<u32>,
+    restated: bool,
+}
+
+/// Parses the message header and locates the payload of one chunk.  `prev` is the chunk stream's
+/// record (its `partial` moved out; `have_len` is its length).  Pure: nothing is committed.
+fn parse_after_basic(b: &[u8], fmt: u8, csid: u32, hdr: usize, prev: &CsState, have_len: usize, chunk_size: u32) -> Result<Option<Parsed>, String> {
+    let mut pos = hdr;
+    if fmt != 0 && !prev.have {
+        return Err(format!("fmt {} chunk on csid {} with no previous chunk", fmt, csid));
+    }
+    let first = !prev.in_progress;
+    let mut s = prev.clone();
+    let mut field24 = None;
+    let mut ext_value = None;
+    let mut restated = false;
+    match fmt {
+        0 => {
+            if b.len() < pos + 11 {
+                return Ok(None);
+            }
+            let f = be24(&b[pos..]);
+            let len = be24(&b[pos + 3..]);
+            let ty = b[pos + 6];
+            let msid = le32(&b[pos + 7..]);
+            pos += 11;
+            let ext = f == MAXTS;
+            let v = if ext {
+                if b.len() < pos + 4 {
                     return Ok(None);
                 }
-                let f = be24(&b[pos..]);
-                let (len, ty) = if fmt == 1 {
-                    (be24(&b[pos + 3..]), b[pos + 6])
-                } else {
-                    (s.len, s.type_id)
-                };
-                pos += need;
-                let ext = f == MAXTS;
-                let v = if ext {
-                    if b.len() < pos + 4 {
-                        return Ok(None);
-                    }
-                    let x = be32(&b[pos..]);
-                    pos += 4;
-                    ext_value = Some(x);
-                    if x < MAXTS {
-                        return Err(format!("extended timestamp delta {:#x} below 0xFFFFFF on fmt {}", x, fmt));
-                    }
-                    x
-                } else {
-                    f
-                };
-                field24 = Some(f);
-                if !first {
-                    return Err(format!("fmt {} header on a continuation chunk of csid {}", fmt, csid));
+                let x = be32(&b[pos..]);
+                pos += 4;
+                ext_value = Some(x);
+                if x < MAXTS {
+                    return Err(format!("extended timestamp {:#x} below 0xFFFFFF on fmt 0", x));
                 }
-                s.ts = s.ts.wrapping_add(v);
+                x
+            } else {
+                f
+            };
+            field24 = Some(f);
+            if first {
+                s.ts = v;
                 s.delta = v;
                 s.len = len;
                 s.type_id = ty;
+                s.msid = msid;
                 s.ext = ext;
-            }
-            _ => {
-                if s.ext {
-                    if b.len() < pos + 4 {
-                        return Ok(None);
-                    }
-                    let x = be32(&b[pos..]);
-                    pos += 4;
-                    ext_value = Some(x);
-                    if first && x != s.delta {
-                        return Err(format!(
-                            "fmt 3 first chunk on csid {} carries extended field {:#x} but the repeated delta is {:#x}",
-                            csid, x, s.delta
-                        ));
-                    }
+                s.have = true;
+            } else {
+                // a fmt-0 header on a continuation chunk: tolerated only if it restates the message
+                if len != s.len || ty != s.type_id || msid != s.msid || v != s.ts {
+                    return Err(format!("fmt 0 header on continuation chunk of csid {} changes message fields", csid));
                 }
-                if first {
-                    s.ts = s.ts.wrapping_add(s.delta);
-                }
+                s.ext = ext;
+                s.delta = v;
+                restated = true;
             }
         }
-        let have = s.partial.len();
-        let remaining = (s.len as usize).checked_sub(have).ok_or_else(|| "partial longer than length".to_string())?;
-        let n = std::cmp::min(self.chunk_size as usize, remaining);
-        if b.len() < pos + n {
-            return Ok(None);
-        }
-        s.partial.extend_from_slice(&b[pos..pos + n]);
-        pos += n;
-        let completes = s.partial.len() == s.len as usize;
-        let header_len = pos - n;
-        self.chunks.push(ChunkInfo {
-            start: self.consumed,
-            header_len,
-            fmt,
-            csid,
-            csid_form: form,
-            first,
-            ext_present: ext_value.is_some(),
-            field24,
-            ext_value,
-            payload_len: n,
-            chunk_size_in_force: self.chunk_size,
-            restated_fmt0_continuation: restated,
-            completes,
-        });
-        let mut result = None;
-        if completes {
-            let payload = std::mem::take(&mut s.partial);
-            s.in_progress = false;
-            let m = Msg {
-                type_id: s.type_id,
-                msid: s.msid,
-                ts: s.ts,
-                payload,
+        1 | 2 => {
+            let need = if fmt == 1 { 7 } else { 3 };
+            if b.len() < pos + need {
+                return Ok(None);
+            }
+            let f = be24(&b[pos..]);
+            let (len, ty) = if fmt == 1 { (be24(&b[pos + 3..]), b[pos + 6]) } else { (s.len, s.type_id) };
+            pos += need;
+            let ext = f == MAXTS;
+            let v = if ext {
+                if b.len() < pos + 4 {
+                    return Ok(None);
+                }
+                let x = be32(&b[pos..]);
+                pos += 4;
+                ext_value = Some(x);
+                if x < MAXTS {
+                    return Err(format!("extended timestamp delta {:#x} below 0xFFFFFF on fmt {}", x, fmt));
+                }
+                x
+            } else {
+                f
             };
-            if self.auto_chunk_size && m.type_id == 1 {
-                if m.payload.len() < 4 {
-                    return Err("Set Chunk Size message shorter than 4 bytes".to_string());
-                }
-                let v = be32(&m.payload);
-                if v == 0 || v > 0x7FFF_FFFF {
-                    return Err(format!("Set Chunk Size announces illegal size {:#x}", v));
-                }
-                self.chunk_size = v;
+            field24 = Some(f);
+            if !first {
+                return Err(format!("fmt {} header on a continuation chunk of csid {}", fmt, csid));
             }
-            result = Some(m);
-        } else {
-            s.in_progress = true;
+            s.ts = s.ts.wrapping_add(v);
+            s.delta = v;
+            s.len = len;
+            s.type_id = ty;
+            s.ext = ext;
         }
-        self.per.insert(csid, s);
-        self.buf.drain(..pos);
-        self.consumed += pos;
-        Ok(Some(result))
+        _ => {
+            if s.ext {
+                if b.len() < pos + 4 {
+                    return Ok(None);
+                }
+                let x = be32(&b[pos..]);
+                pos += 4;
+                ext_value = Some(x);
+                if first && x != s.delta {
+                    return Err(format!(
+                        "fmt 3 first chunk on csid {} carries extended field {:#x} but the repeated delta is {:#x}",
+                        csid, x, s.delta
+                    ));
+                }
+            }
+            if first {
+                s.ts = s.ts.wrapping_add(s.delta);
+            }
+        }
     }
+    let remaining = (s.len as usize).checked_sub(have_len).ok_or_else(|| "partial longer than length".to_string())?;
+    let n = std::cmp::min(chunk_size as usize, remaining);
+    if b.len() < pos + n {
+        return Ok(None);
+    }
+    pos += n;
+    Ok(Some(Parsed { state: s, pos, n, first, field24, ext_value, restated }))
 }
 
 // ---------------------------------------------------------------------------------------------
